@@ -1616,6 +1616,12 @@ class ContractionTree:
 
         # make sure all flops and size information has been populated
         tree.contract_stats()
+        # nodes can be created with precomputed flops and size but without
+        # ``involved`` or ``legs`` (e.g. by simulated annealing), make sure
+        # these are populated before anything they derive from is modified
+        for node in tree.children:
+            tree.get_involved(node)
+            tree.get_legs(node)
 
         d = tree.size_dict[ind]
         if project is None:
